@@ -1331,10 +1331,14 @@ class sliding_window(Stream):
         self.metadata_buffer.append(metadata)
         if self.partial or len(self._buffer) == self.n:
             flat_metadata = [m for ml in self.metadata_buffer for m in ml]
-            ret = self._emit(tuple(self._buffer), flat_metadata)
+            window = tuple(self._buffer)
+            # the oldest element is in no later window: forget it before emitting
+            # (the emission may feed back into this node), release it afterwards
+            completed = []
             if len(self.metadata_buffer) == self.n:
                 completed = self.metadata_buffer.popleft()
-                self._release_refs(completed)
+            ret = self._emit(window, flat_metadata)
+            self._release_refs(completed)
             return ret
         else:
             return []
